@@ -47,6 +47,26 @@ MODULES = {
         "plain_params": "x: torch.Tensor", "plain_ret": "torch.Tensor", "body": "return x - 1.0", "deco": "dltype.dltyped(PROVIDER)",
         "good": [[(2, 6)], [(3, 6)]], "bad": [[(2, 5)]],
     },
+    # a provider that hands out the mapping it keeps (a loaded configuration): conforming inputs of different batch sizes in a row
+    "kept_dict_provider": {
+        "params": "x: {A}[torch.Tensor, dltype.FloatTensor['b width']]", "ret": "{A}[torch.Tensor, dltype.FloatTensor['b width']]",
+        "plain_params": "x: torch.Tensor", "plain_ret": "torch.Tensor", "body": "return x * 0.5", "deco": "dltype.dltyped(KEPT)",
+        "good": [[(2, 6)], [(3, 6)], [(2, 6)]], "bad": [[(2, 5)]],
+    },
+    # the module is its own provider ("self"), its mapping kept on the instance
+    "self_provider": {
+        "params": "x: {A}[torch.Tensor, dltype.FloatTensor['b width']]", "ret": "{A}[torch.Tensor, dltype.FloatTensor['b width*2']]",
+        "plain_params": "x: torch.Tensor", "plain_ret": "torch.Tensor", "body": "return torch.cat([x, x], dim=1)", "deco": "dltype.dltyped('self')",
+        "extra": "    def get_dltype_scope(self):\n        return CONFIG\n",
+        "good": [[(2, 6)], [(5, 6)], [(1, 6)]], "bad": [[(2, 4)]],
+    },
+    # the same with the provider method exported to TorchScript (so that the scripted module still is a provider)
+    "self_provider_exported": {
+        "params": "x: {A}[torch.Tensor, dltype.FloatTensor['b width']]", "ret": "{A}[torch.Tensor, dltype.FloatTensor['b width*2']]",
+        "plain_params": "x: torch.Tensor", "plain_ret": "torch.Tensor", "body": "return torch.cat([x, x], dim=1)", "deco": "dltype.dltyped('self')",
+        "extra": "    @torch.jit.export\n    def get_dltype_scope(self) -> Dict[str, int]:\n        return {'width': 6}\n",
+        "good": [[(2, 6)], [(5, 6)], [(1, 6)]], "bad": [[(2, 4)]],
+    },
 }
 
 
@@ -61,9 +81,10 @@ def impl_module(a: dict) -> dict:
 
     deco = spec.get("deco", "dltype.dltyped()")
     src = (
-        "import torch\nimport dltype\nfrom typing import Annotated\n"
+        "import torch\nimport dltype\nfrom typing import Annotated, Dict\n"
         "class _P:\n    def get_dltype_scope(self):\n        return {'width': 6}\nPROVIDER = _P()\n"
-        f"class Checked(torch.nn.Module):\n    @{deco}\n    def forward(self, {spec['params'].format(A='Annotated')}) -> {spec['ret'].format(A='Annotated')}:\n        {spec['body']}\n"
+        "CONFIG = {'width': 6}\nclass _K:\n    def get_dltype_scope(self):\n        return CONFIG\nKEPT = _K()\n"
+        f"class Checked(torch.nn.Module):\n{spec.get('extra', '')}    @{deco}\n    def forward(self, {spec['params'].format(A='Annotated')}) -> {spec['ret'].format(A='Annotated')}:\n        {spec['body']}\n"
         f"class Plain(torch.nn.Module):\n    def forward(self, {spec['plain_params']}) -> {spec['plain_ret']}:\n        {spec['body']}\n"
     )
     # TorchScript reads the source of what it compiles: the classes live in a real file, in a scratch directory
@@ -242,6 +263,8 @@ def run(tier: str, seed: int, rep: Report, model: Model) -> dict:
                 continue
             rep.count(f"{mode}:ran", rec["ran"])
             for p in rec["problems"]:
+                if name == "self_provider" and mode == "script" and "DLTypeScopeProviderError" in p and rep.known("K3", {"module": name, "mode": mode, "what": p}):
+                    continue      # the listed finding: a scripted module is no provider unless it exports get_dltype_scope
                 rep.violation({"what": p, "module": name, "mode": mode})
     rep.case("decorated_while_tracing", dwt)
     rep.count("decorated_while_tracing:" + ("skipped" if dwt.get("skipped") else "ran"))
